@@ -58,6 +58,9 @@ type confPlan struct {
 	Ops     []confOp    `json:"ops"`
 	Faults  bool        `json:"faults"`
 	N2      int         `json:"n2,omitempty"`
+	// IDs: client i uses this id instead of "c<i>" (two connections of one
+	// browser tab: the second one re-uses the id of the first)
+	IDs []string `json:"ids,omitempty"`
 }
 
 func descOf(g *confGroup) map[string]any {
@@ -179,7 +182,11 @@ func (x *confExec) run() {
 		w.putGroup(x.p.Groups[i].Name, descOf(&x.p.Groups[i]))
 	}
 	for i := 0; i < x.p.Clients; i++ {
-		w.newClient(fmt.Sprintf("c%d", i))
+		id := fmt.Sprintf("c%d", i)
+		if i < len(x.p.IDs) && x.p.IDs[i] != "" {
+			id = x.p.IDs[i]
+		}
+		w.newClient(id)
 	}
 	for i := range x.p.Ops {
 		if w.c.Run.Failed() {
